@@ -705,6 +705,39 @@ def main(P):
 """)], ['fixed-cotasks'])
 
 
+FIXED_ASYNCIO = fixed([('main.py', """# decorated coroutines as tasks of a real event loop (each task has its own context), overlapping
+class Susp:
+    def __await__(self):
+        r = yield
+        return r
+async def short(x, d):
+    x = x + 1
+    await Susp()
+    A(5)
+    return x
+async def long(x, d):
+    x = x + 2
+    await Susp()
+    A(3)
+    x = x * 2
+    await Susp()
+    A(7)
+    await Susp()
+    x = x - 1
+    return x
+def main(P):
+    import asyncio
+    P.deco('short')
+    P.deco('long')
+    async def grp(*cs):
+        return await asyncio.gather(*cs, return_exceptions=True)
+    asyncio.run(grp(P.fn('short')(1, 0), P.fn('long')(2, 0)))
+    P.snap()
+    asyncio.run(grp(P.fn('long')(3, 0), P.fn('short')(4, 0), P.fn('long')(5, 0)))
+    P.snap()
+""")], ['fixed-asyncio'])
+
+
 def merge_results(res, res2, label):
     res.mismatches += res2.mismatches
     res.spec_fails += res2.spec_fails
